@@ -80,10 +80,41 @@ func (te *tokenEngine) consumption(in ssa.Instruction, vals, addrs map[ssa.Value
 // countConsumptions counts consumptions on a path. A module callee consumes its
 // start element only when it returns a nil error, so its call counts only on
 // paths that assert that error to be nil (or return it directly).
-func (te *tokenEngine) countConsumptions(path []ssa.Instruction, vals, addrs map[ssa.Value]bool) (int, []string) {
+func (te *tokenEngine) countConsumptions(path []ssa.Instruction, vals0, addrs0 map[ssa.Value]bool) (int, []string) {
 	cnt := 0
 	var how []string
-	for _, in := range path {
+	vals, addrs := map[ssa.Value]bool{}, map[ssa.Value]bool{}
+	for k := range vals0 {
+		vals[k] = true
+	}
+	for k := range addrs0 {
+		addrs[k] = true
+	}
+	for pi, in := range path {
+		// a helper that is walked through on this path: its body is on the path, so what counts is what the body
+		// does with the element (seen through the helper's parameter), not the callee summary
+		if call, ok := in.(*ssa.Call); ok {
+			if callee := call.Call.StaticCallee(); isHelper(callee) && pi+1 < len(path) && path[pi+1].Parent() == callee {
+				for i, a := range call.Call.Args {
+					if i >= len(callee.Params) {
+						break
+					}
+					if vals[a] {
+						v2, a2 := te.aliases(callee, callee.Params[i])
+						for k := range v2 {
+							vals[k] = true
+						}
+						for k := range a2 {
+							addrs[k] = true
+						}
+					} else if addrs[a] {
+						// the address of the element is handed on (&tt)
+						addrs[callee.Params[i]] = true
+					}
+				}
+				continue
+			}
+		}
 		c, h := te.consumption(in, vals, addrs)
 		if !c {
 			continue
@@ -155,13 +186,13 @@ func (te *tokenEngine) errorReturn(ret *ssa.Return, path []ssa.Instruction) bool
 	if len(ret.Results) == 0 {
 		return false
 	}
-	ev := valueOnPath(ret.Results[len(ret.Results)-1], path)
+	ev := valueOnPath(rres(path, ret)[len(ret.Results)-1], path)
 	if isNilConst(ev) {
 		return false
 	}
 	if c, ok := ev.(*ssa.Call); ok {
 		k := te.w.callKey(c)
-		if k == "errors.New" || k == "fmt.Errorf" {
+		if k == "errors.New" || k == "fmt.Errorf" || alwaysNonNil(c.Call.StaticCallee(), 0) {
 			return true
 		}
 		return false
